@@ -1,6 +1,8 @@
 (* line protocol (strings: 'e' or dot-separated decimal code points):
    S <B|K|Bt|Kt> <src> <k1,k2,...|->   -> OK <kind>/<value> ...   | ERR      (B bundled rules, K stock rules; ks = characters
                                      consumed by each visit of the block/variable state, taken from the real lexer)
+   X <B|U> <combo> <src> <ks>    -> OK <kind>/<value> ... | ERR   (generic scanner, regenerated rules of option combination <combo>)
+   F <combo> <src>               -> OK 0|1   (marker_free)
    R <src>                       -> OK <data> <name> <value> <rest> | NONE   (stock 3.1 root step)
    L <s> <prefix>                -> OK <text>                                 (do_lineprefix)
    V <token value> <rendering>   -> OK <text>      (variable_begin branch of subparse, rendered)
@@ -36,6 +38,16 @@ let () =
             (match r with
              | None -> "ERR"
              | Some toks -> String.concat " " ("OK" :: List.map (fun (k, v) -> ascii k ^ "/" ^ show v) toks))
+          | ["X"; which; idx; src; ks] ->
+            (* which: B bundled rule list of option combination idx, U the same with the marker alternatives deleted *)
+            let q = ref (if ks = "-" then [] else List.map int_of_string (String.split_on_char ',' ks)) in
+            let tags _ _ = match !q with [] -> None | k :: r -> q := r; Some ([], nat_of_int k) in
+            let i = nat_of_int (int_of_string idx) in
+            let r = if which = "B" then scan_combo i tags (parse src) else scan_combo_upstream i tags (parse src) in
+            (match r with
+             | None -> "ERR"
+             | Some toks -> String.concat " " ("OK" :: List.map (fun (k, v) -> ascii k ^ "/" ^ show v) toks))
+          | ["F"; idx; src] -> if marker_free_combo (nat_of_int (int_of_string idx)) (parse src) then "OK 1" else "OK 0"
           | ["R"; src] ->
             (match root_step31 (parse src) with
              | None -> "NONE"
